@@ -213,6 +213,35 @@ impl Chk<'_> {
     }
 }
 
+impl<'a> Chk<'a> {
+    /// wrongly shaped buffer together with a query that is NaN, infinite or out of range: the
+    /// call may panic or return an error, but it must never return Ok
+    fn wrong_buffer_special<T: Flt>(
+        &mut self,
+        what: &str,
+        shape: &[usize],
+        kind: &str,
+        call: &mut dyn FnMut(vh::ndarray::ArrayViewMutD<'_, T>) -> Outcome<()>,
+    ) {
+        let mut buf = ArrayD::<T>::from_elem(IxDyn(shape), T::sentinel(3));
+        match call(buf.view_mut()) {
+            Outcome::Untypeable => {}
+            Outcome::Ok(()) => self.bad(
+                "C14:wrong-shape-not-rejected",
+                format!("{what}: buffer of shape {shape:?} ({kind}) -> Ok instead of a panic"),
+            ),
+            Outcome::Panic(_) => self.ev.add("wrong_buffers_special_query_panic", 1),
+            Outcome::Err(..) => self.ev.add("wrong_buffers_special_query_err", 1),
+        }
+    }
+}
+
+/// NaN, the infinities, just outside and far outside the range
+fn special_queries<T: Flt>(x: &[T]) -> Vec<T> {
+    let (lo, hi) = (x[0], x[x.len() - 1]);
+    vec![T::nan(), T::of(f64::INFINITY), T::of(f64::NEG_INFINITY), hi.up(), lo.down(), hi + (hi - lo) * T::of(3.5), lo - (hi - lo) * T::of(100.0)]
+}
+
 fn queries_for<T: Flt>(rng: &mut Rng, x: &[T]) -> Vec<(QKind, Vec<usize>)> {
     let _ = x;
     let mut v = vec![
@@ -234,11 +263,13 @@ fn queries_for<T: Flt>(rng: &mut Rng, x: &[T]) -> Vec<(QKind, Vec<usize>)> {
 fn case1<T: Elem>(case: u64, args: &Args, ev: &mut Ev) {
     let mut rng = Rng::derive(args.seed, "C14", &[case]);
     let spline = case % 3 == 1;
+    let extrapolate = rng.chance(0.5);
     let (spec, _) = if spline {
-        gen_spline_case::<T>(&mut rng, &SplineOpts { max_n: 8, max_lane_rank: 3, ..Default::default() })
+        gen_spline_case::<T>(&mut rng, &SplineOpts { max_n: 8, max_lane_rank: 3, extrapolate, ..Default::default() })
     } else {
-        gen_linear_case::<T>(&mut rng, &LinearOpts { max_n: 8, max_lane_rank: 3, allow_cluster: false, ..Default::default() })
+        gen_linear_case::<T>(&mut rng, &LinearOpts { max_n: 8, max_lane_rank: 3, allow_cluster: false, extrapolate, ..Default::default() })
     };
+    ev.count("extrapolate", if extrapolate { "on" } else { "off" });
     let x = spec.axis();
     let lane_shape = spec.lane_shape();
     let h = hash_bits(&[&bits_of(&x), &bits_of_arr(&spec.data)], &[T::NAME, &spec.dim_name(), &spec.strat.name()]);
@@ -264,6 +295,11 @@ fn case1<T: Elem>(case: u64, args: &Args, ev: &mut Ev) {
                 c.wrong_buffer::<T>(&format!("interp_into({kq:?}) [query at a knot]"), &s, &kind, nt, &mut |b| interp.one_into(kq, b));
             }
         }
+        for sq in special_queries(&x) {
+            for (s, kind, _) in wrong_shapes(&lane_shape, 0, spec.dynamic) {
+                c.wrong_buffer_special::<T>(&format!("interp_into({sq:?}) [special query]"), &s, &kind, &mut |b| interp.one_into(sq, b));
+            }
+        }
         for kq in knots {
             let r = interp.one(kq);
             c.good_buffer(&mut rng, &format!("interp_into({kq:?}) [query at a knot]"), &lane_shape, &r, &mut |b| interp.one_into(kq, b));
@@ -286,6 +322,21 @@ fn case1<T: Elem>(case: u64, args: &Args, ev: &mut Ev) {
             for (s, wkind, nt) in wrong_shapes(&want, qshape.len(), dyn_out) {
                 c.wrong_buffer::<T>(&what, &s, &wkind, nt, &mut |b| interp.many_into(&qa, b));
             }
+            // the same batch made of one special value throughout, and with one special element
+            if n > 0 && n <= 64 {
+                let sp = special_queries(&x);
+                let sq = sp[rng.below(sp.len())];
+                let mut mixed: Vec<T> = qa.values().iter().copied().collect();
+                let pos = rng.below(n);
+                mixed[pos] = sq;
+                for (label, vals) in [("all", vec![sq; n]), ("one", mixed)] {
+                    let qs = Query::from_vec(vals, &qshape, kind);
+                    let what = format!("interp_array_into({}) [{label} = {sq:?}]", qs.name());
+                    for (s, wkind, _) in wrong_shapes(&want, qshape.len(), dyn_out) {
+                        c.wrong_buffer_special::<T>(&what, &s, &wkind, &mut |b| interp.many_into(&qs, b));
+                    }
+                }
+            }
             if c.stop {
                 return;
             }
@@ -295,7 +346,9 @@ fn case1<T: Elem>(case: u64, args: &Args, ev: &mut Ev) {
 
 fn case2<T: Elem>(case: u64, args: &Args, ev: &mut Ev) {
     let mut rng = Rng::derive(args.seed, "C14", &[case]);
-    let (spec, _) = gen_grid_case::<T>(&mut rng, &GridOpts { max_nx: 5, max_ny: 4, max_lane_rank: 2, allow_cluster: false, ..Default::default() });
+    let extrapolate = rng.chance(0.5);
+    let (spec, _) = gen_grid_case::<T>(&mut rng, &GridOpts { max_nx: 5, max_ny: 4, max_lane_rank: 2, allow_cluster: false, extrapolate, ..Default::default() });
+    ev.count("extrapolate", if extrapolate { "on" } else { "off" });
     let x = spec.axis_x();
     let y = spec.axis_y();
     let lane_shape = spec.lane_shape();
@@ -316,6 +369,12 @@ fn case2<T: Elem>(case: u64, args: &Args, ev: &mut Ev) {
             // exactly at a grid node / on a grid line
             c.wrong_buffer::<T>("2-D interp_into [node]", &s, &kind, nt, &mut |b| interp.one_into(x[0], y[y.len() - 1], b));
             c.wrong_buffer::<T>("2-D interp_into [grid line]", &s, &kind, nt, &mut |b| interp.one_into(x[x.len() - 1], qy, b));
+            let (sx, sy) = (special_queries(&x), special_queries(&y));
+            for k in 0..sx.len() {
+                c.wrong_buffer_special::<T>(&format!("2-D interp_into({:?}, {qy:?}) [special query]", sx[k]), &s, &kind, &mut |b| interp.one_into(sx[k], qy, b));
+                c.wrong_buffer_special::<T>(&format!("2-D interp_into({qx:?}, {:?}) [special query]", sy[k]), &s, &kind, &mut |b| interp.one_into(qx, sy[k], b));
+                c.wrong_buffer_special::<T>(&format!("2-D interp_into({:?}, {:?}) [special query]", sx[k], sy[k]), &s, &kind, &mut |b| interp.one_into(sx[k], sy[k], b));
+            }
         }
         for (kind, qshape) in queries_for(&mut rng, &x) {
             let n: usize = qshape.iter().product();
@@ -335,6 +394,15 @@ fn case2<T: Elem>(case: u64, args: &Args, ev: &mut Ev) {
             let dyn_out = spec.dynamic || kind == QKind::Dyn || want.len() > 6;
             for (s, wkind, nt) in wrong_shapes(&want, qshape.len(), dyn_out) {
                 c.wrong_buffer::<T>(&what, &s, &wkind, nt, &mut |b| interp.many_into(&qax, &qay, b));
+            }
+            if n > 0 && n <= 64 {
+                let sp = special_queries(&x);
+                let sq = sp[rng.below(sp.len())];
+                let qsx = Query::from_vec(vec![sq; n], &qshape, kind);
+                let what = format!("2-D interp_array_into({}) [xs all = {sq:?}]", qsx.name());
+                for (s, wkind, _) in wrong_shapes(&want, qshape.len(), dyn_out) {
+                    c.wrong_buffer_special::<T>(&what, &s, &wkind, &mut |b| interp.many_into(&qsx, &qay, b));
+                }
             }
             // xs / ys of different shapes (same static type): must panic, with or without buffer
             if !qshape.is_empty() {
